@@ -1,5 +1,74 @@
 """C04 - tokenisation is longest-match over all terms with first-listed priority."""
-import families, report, common_parse as cp
+import os
+import families, report, vlib, emit, lexref, common_parse as cp
+
+TAB_CPP = '''#include "hv.h"
+using namespace ctpg; using namespace ctpg::buffers; using namespace ctpg::ftors;
+hv::state hv::hv_S; const void* hv::hv_ctx_addr = nullptr; unsigned hv::hv_ctx_tag = 0; hv::lex_state hv::hv_L;
+#define HV_CTX_PARAM hv::ctx_t&
+%s
+extern "C" __attribute__((noinline)) uint32_t k_tr(uint32_t s, uint32_t c) { return g::p.lexer_sm[s].transitions[c & 0xff]; }
+extern "C" __attribute__((noinline)) uint32_t k_acc(uint32_t s) { return g::p.lexer_sm[s].conflicted_recognition[0]; }
+extern "C" __attribute__((noinline)) uint32_t k_size() { return (uint32_t)g::p.lexer_sm.size(); }
+'''
+TAB_H = '''#include "%(unit_c)s"
+#include "rt.h"
+#include "check.h"
+%(tables)s
+#define NONE 65535u
+uint8_t nondet_uchar(void); uint32_t nondet_uint(void);
+uint32_t R; uint8_t C;
+static uint16_t H[NREAL]; static uint16_t Q[NREAL];
+/* the union automaton built by the real create_lexer / add_term_data_to_dfa / alt merges against the reference lexer automaton (minimal, states labelled with the
+   winning term): a label-preserving homomorphism from every reachable real state means the same (term, length) decision on inputs of ANY length */
+void harness(void) {
+  unsigned n = g_k_size();
+  __CPROVER_assert(n <= NREAL && n >= 1, "the lexer automaton fits the statically computed size");
+  for (unsigned i = 0; i < NREAL; i++) H[i] = NONE;
+  H[0] = 0; Q[0] = 0; unsigned qn = 1;
+  for (unsigned qi = 0; qi < NREAL; qi++) {
+    if (qi >= qn) break;
+    unsigned r = Q[qi];
+    for (unsigned c = 0; c < 256; c++) {
+      unsigned t = g_k_tr(r, c);
+      if (t != NONE && t < NREAL && H[t] == NONE) { H[t] = RL_tr[H[r]][RL_cls[c]]; Q[qn] = (uint16_t)t; qn++; }
+    }
+  }
+  R = nondet_uint(); C = nondet_uchar();
+  __CPROVER_assume(R < n && H[R] != NONE);
+  unsigned t = g_k_tr(R, C), qq = RL_tr[H[R]][RL_cls[C]];
+#ifdef WITNESS_ON
+  WITNESS(t != NONE && R != 0, "interesting outcome reachable");
+#else
+  if (t == NONE) CHECK(RL_dead[qq], "where the lexer has no transition no term can still match");
+  else { CHECK(t < n, "transition target inside the automaton"); if (t < n) CHECK(H[t] == qq, "every transition of the generated lexer follows the reference lexer automaton"); }
+  unsigned lab = RL_lab[H[R]];
+  CHECK(g_k_acc(R) == (lab == 255 ? NONE : lab), "each lexer state recognises exactly the first-listed term among those matching there");
+#endif
+}
+'''
+def lexer_table_queries(wd, grammars):
+    qs = []; units = []
+    for g in grammars:
+        d = lexref.LexDFA(g.tkinds); tr, lab, dead = d.minimal_tables()
+        cols = {}
+        for c in range(256): cols.setdefault(tuple(tr[s][c] for s in range(len(tr))), []).append(c)
+        cls = list(cols.values()); cmap = [0] * 256
+        for i, cs in enumerate(cls):
+            for c in cs: cmap[c] = i
+        nreal = sum({'char': 2, 'str': 0, 'regex': 0}[t['kind']] + (2 * len(t['s']) if t['kind'] == 'str' else 0) + (rxsize(t['pattern']) if t['kind'] == 'regex' else 0) for t in g.tkinds)
+        tabs = '#define NREAL %d\nstatic const uint8_t RL_cls[256] = {%s};\nstatic const uint8_t RL_lab[%d] = {%s};\nstatic const uint8_t RL_dead[%d] = {%s};\nstatic const uint8_t RL_tr[%d][%d] = {%s};\n' % (
+            nreal, ','.join(map(str, cmap)), len(tr), ','.join(map(str, lab)), len(tr), ','.join('1' if x else '0' for x in dead), len(tr), len(cls),
+            ','.join('{%s}' % ','.join(str(tr[s][cs[0]]) for cs in cls) for s in range(len(tr))))
+        u = vlib.Unit(wd, 'lt_' + g.name, TAB_CPP % emit.grammar_cpp(g), defines=['LEN=1', 'MAXMSG=2', 'MAXRED=2', 'MAXTERM=2'])
+        units.append(u)
+        for wit in (False, True):
+            qs.append(vlib.Query('q_lextab_%s%s' % (g.name, '_wit' if wit else ''), u, TAB_H % {'unit_c': os.path.basename(u.c), 'tables': tabs}, fn_bounds={'harness': 258}, default_unwind=max(258, nreal + 2),
+                                 defines=(['WITNESS_ON'] if wit else []), expect='witness' if wit else 'hold', timeout=900, mem_gb=8, inputs=['R', 'C'], meta={'unit': g.name, 'kind': 'lexer-table'}))
+    return units, qs
+def rxsize(p):
+    import rx, rxcheck
+    return rxcheck.dfa_size(rx.parse(p))
 def run(tier, seed):
     T = {g.name: g for g in families.t_sets()}
     R = report.Run('C04', tier, seed); cases = []
@@ -13,6 +82,19 @@ def run(tier, seed):
                               ['reference lexer: union of the per-term reference automata, longest match, lowest term index wins ties, documented whitespace sets',
                                'harness grammar S -> S K | K, K -> t_i: every token sequence is syntactically valid, so the functor log (term, line, column, first byte, length) is the token stream'],
                               ws=ws, nl=nl, validate_cf=False, wit_every=2, finish=False, R=R, defer=cases, tag='b')
+    # table level: the generated lexer automaton of EVERY term set of the family against the reference lexer automaton (inputs of any length)
+    wd = vlib.workdir('C04', fresh=False)
+    units, tq = lexer_table_queries(wd, list(T.values()))
+    vlib.build_units(units)
+    for u in units: R.add_unit(u, desc='lexer table of term set ' + u.name)
+    for r in vlib.run_queries([q for q in tq if q.unit.ok]):
+        R.record(r)
+        if r['expect'] == 'witness':
+            if r['status'] != 'sat': R.inconclusive.append('witness %s: %s' % (r['id'], r['status']))
+        elif r['status'] == 'inconclusive': R.inconclusive.append('%s: %s' % (r['id'], r['reason']))
+        elif r['status'] == 'sat':
+            R.violation('term set %s: the generated lexer automaton differs from the reference lexer at state %s on byte %s: %s' % (r['meta']['unit'], r['inputs'].get('R'), r['inputs'].get('C'),
+                        '; '.join(f['desc'] for f in r['failed'])[:200]), {'query': r['id'], 'kind': 'lexer-table', 'unit': r['meta']['unit'], 'input_hex': '', 'inputs': r['inputs']})
     return cp.run_deferred(R, tier, cases,
         'one query per (term set, whitespace options, exact input length): for every byte string (all 256 values) the generated lexer inside the real parser delivers exactly the reference token stream '
         '(term, offset as line/column, length and first byte of the lexeme handed to the functor), and fails with exactly one Unexpected character message at the reference position iff the reference finds no non-empty match')
